@@ -138,6 +138,42 @@ def check_case(case, conc, axis_form):
     return out
 
 
+def long_piece_cases(chk, rnd):
+    """The spec's one-sample gap / overlap cases (Concat!CanPerturb, shift+-1) concretised on LONG pieces:
+    contiguity must be judged to a fraction of a sample however many samples precede the piece.  Dask-backed
+    data, so nothing is allocated."""
+    import common
+    from common import pb, u, da
+    n_cases = 0
+    for rate in ((1, u.kHz), (1, u.MHz), (2, u.GHz), (0.5, u.Hz)):
+        for n1, n2 in ((200000, 7), (3000001, 1000), (12345678, 2)):
+            for shift in (0, 1, -1, 3, -2):
+                ep = common.EPOCHS[0]
+                ep = type(ep)(ep.jd1, ep.jd2, format="jd", scale="tai")       # uniform time scale for long spans
+                z = pb.RadioSignal(da.zeros((n1 + n2, 2), chunks=(n1 + n2, 2), dtype="float32"), sample_rate=rate[0] * rate[1],
+                                   start_time=ep, center_freq=1 * u.GHz, chan_bw=1 * u.MHz)
+                a, b = z[:n1], z[n1:]
+                if shift:
+                    b = type(b).like(b, start_time=b.start_time + shift * b.dt)
+                desc = "concatenate([%d samples, %d samples shifted by %+d sample(s)]) at %s" % (n1, n2, shift, z.sample_rate)
+                try:
+                    r = pb.concatenate([a, b])
+                    err = None
+                except Exception as e:  # noqa
+                    r, err = None, e
+                n_cases += 1
+                case = {"kind": "long", "rate": str(z.sample_rate), "n1": n1, "n2": n2, "shift": shift}
+                if shift and err is None:
+                    chk.violation("concat:joined-bad:shift-long", desc + " was joined instead of refused", case)
+                if not shift:
+                    if err is not None:
+                        chk.violation("concat:refused-good:long", desc + " raised %r" % (err,), case)
+                    elif len(r) != n1 + n2 or abs(common.time_days(r.start_time) - common.time_days(z.start_time)) > 0:
+                        chk.violation("concat:start:long", desc + ": wrong length / start time", case)
+    chk.validated += n_cases
+    chk.notes["long_piece_cases"] = n_cases
+
+
 def load(path):
     import pipeline_replay as pr
     return pr.load(path)
@@ -184,6 +220,7 @@ def run(chk):
                                           "nconc": len(concs), "seed": chk.seed, "axis_form": i % 2})
         if i < 3:
             chk.sample({k: case[k] for k in ("root", "axis", "cuts", "hasT", "pert", "err")})
+    long_piece_cases(chk, rnd)
     chk.notes["cases_by_perturbation"] = kinds
     chk.notes["skipped"] = skipped
     chk.notes["concretisations"] = [c.name for c in concs]
@@ -194,6 +231,16 @@ def run(chk):
 def replay(doc):
     import common
     c = doc["case"]
+    if c.get("kind") == "long":
+        chk = framework.Check("C10", "quick", 0)
+        chk._known = []
+        long_piece_cases(chk, random.Random(0))
+        bad = [v for v in chk.violations if v[2] == c]
+        for v in bad:
+            print("VIOLATION property=C10 replay=(this case)  # %s: %s" % (v[0], v[1]))
+        if not bad:
+            print("case passes")
+        return 1 if bad else 0
     concs = common.concs(c["nconc"], random.Random(c["seed"]))
     res = check_case(c["case"], concs[c["conc_index"]], c["axis_form"]) or []
     res = [r for r in res if r[0] == doc["property"]]
